@@ -142,6 +142,239 @@ def klass(obs, model_idx, n):
     return obs[0]
 
 
+# ------------------------------------------------------------------ element-kind axis
+ELEM_KINDS = {   # kind -> (type, prelude, value expressions, how to show an element q)
+    'int':    ('int', '', ['10', '20', '99'], '(println q)'),
+    'float':  ('float', '', ['1.5', '2.5', '9.5'], '(println q)'),
+    'bool':   ('bool', '', ['true', 'false', 'true'], '(println q)'),
+    'string': ('string', '', ['"s1"', '"s2"', '"s9"'], '(println q)'),
+    'struct': ('P', 'struct P { x: int, y: int }\n', ['P { x: 1, y: 2 }', 'P { x: 3, y: 4 }', 'P { x: 9, y: 9 }'], '(println q.x)'),
+    'nested': ('array<int>', '', ['[1, 2]', '[3]', '[9, 9, 9]'], '(println (array_length q))'),
+}
+
+
+def kind_program(ek, op, interp=False):
+    """array<ek> of two elements; op in get / set / remove / pop2 (two elements popped from a one-element array)"""
+    ty, prelude, vals, show = ELEM_KINDS[ek]
+    build = '    let mut a: array<%s> = []\n    set a (array_push a %s)\n' % (ty, vals[0]) + ('' if op == 'pop2' else '    set a (array_push a %s)\n' % vals[1])
+    if op == 'get':
+        body = '    let q: %s = (at a i)\n    %s\n' % (ty, show if not interp else 'set w (+ w 1)')
+    elif op == 'set':
+        body = '    (array_set a i %s)\n' % vals[2]
+    elif op == 'remove':
+        body = '    set a (array_remove_at a i)\n'
+    else:
+        body = '    let q: %s = (array_pop a)\n    if (== i 1) {\n        let r: %s = (array_pop a)\n        set w (+ w 1)\n    }\n' % (ty, ty)
+    if interp:
+        return (prelude + 'fn f(i: int) -> int {\n' + build + '    let mut w: int = 0\n' + body + '    return (+ 7 (* 0 w))\n}\n'
+                'shadow f {\n    assert (!= (f (string_to_int (getenv "C08_IDX"))) 7)\n}\nfn main() -> int { return 0 }\n')
+    return (prelude + 'fn main() -> int {\n    let i: int = (string_to_int (getenv "C08_IDX"))\n' + build + '    let mut w: int = 0\n    (println "B")\n' + body +
+            '    (println "A")\n    return (* 0 w)\n}\n')
+
+
+# ------------------------------------------------------------------ stale-bound family
+# the loop bound is derived from the array once; the body (or something it calls) shrinks or replaces the array; the first access at an index >= the
+# CURRENT length must trap.  The program prints the current length and the index before every access, so the verdict does not depend on an engine's
+# aliasing rules: record (len, i) with i >= len must be the last thing the program does.
+STALE_LOOPS = ('for_len', 'while_hoisted', 'nested')
+STALE_WAYS = ('pop', 'remove', 'literal', 'slice', 'callee_pops', 'alias')
+STALE_ACCESSES = ('at', 'array_get', 'array_set')
+STALE_KINDS = ('int', 'float', 'string', 'struct')
+STALE_VALS = {'int': ['10', '20', '30', '40', '99'], 'float': ['1.5', '2.5', '3.5', '4.5', '9.5'], 'string': ['"a"', '"b"', '"c"', '"d"', '"z"'],
+              'struct': ['P { x: 1, y: 1 }', 'P { x: 2, y: 2 }', 'P { x: 3, y: 3 }', 'P { x: 4, y: 4 }', 'P { x: 9, y: 9 }']}
+
+
+def stale_program(loop, ek, way, acc, interp=False):
+    ty, prelude = ELEM_KINDS[ek][0], ELEM_KINDS[ek][1]
+    v = STALE_VALS[ek]
+    helper = ''
+    if way == 'callee_pops':
+        helper = 'fn shrink(a0: array<%s>) -> int {\n    let mut a: array<%s> = a0\n    let t1: %s = (array_pop a)\n    let t2: %s = (array_pop a)\n    return 0\n}\n' % (ty, ty, ty, ty)
+    shrink = {'pop': 'let t1: %s = (array_pop xs)\n            let t2: %s = (array_pop xs)' % (ty, ty),
+              'remove': 'set xs (array_remove_at xs 0)\n            set xs (array_remove_at xs 0)',
+              'literal': 'set xs [%s]' % v[0],
+              'slice': 'set xs (array_slice xs 0 1)',
+              'callee_pops': 'let r1: int = (shrink xs)',
+              'alias': 'let mut ys2: array<%s> = xs\n            let t1: %s = (array_pop ys2)\n            let t2: %s = (array_pop ys2)' % (ty, ty, ty)}[way]
+    access = {'at': 'let q: %s = (at xs i)' % ty, 'array_get': 'let q: %s = (array_get xs i)' % ty, 'array_set': '(array_set xs i %s)' % v[4]}[acc]
+    if interp:
+        pre = '        if (>= i (array_length xs)) { set stale 1 }\n'
+        post = '        if (== stale 1) { return 99 }\n'
+    else:
+        pre = '        (println "L")\n        (println (array_length xs))\n        (println i)\n'
+        post = '        (println "ok")\n'
+    body = ('        if (and (== i 1) (== (array_length xs) 4)) {\n            %s\n        }\n' % shrink) + pre + '        ' + access + '\n' + post
+    if loop == 'for_len':
+        lp = '    for i in (range 0 (array_length xs)) {\n' + body + '    }\n'
+    elif loop == 'while_hoisted':
+        lp = '    let n: int = (array_length xs)\n    let mut i: int = 0\n    while (< i n) {\n' + body + '        set i (+ i 1)\n    }\n'
+    else:
+        lp = '    let ys: array<int> = [1, 2]\n    for j in (range 0 (array_length ys)) {\n    for i in (range 0 (array_length xs)) {\n' + body + '    }\n    }\n'
+    build = '    let mut xs: array<%s> = []\n' % ty + ''.join('    set xs (array_push xs %s)\n' % v[k] for k in range(4))
+    if interp:
+        return (prelude + helper + 'fn f(z: int) -> int {\n' + build + '    let mut stale: int = 0\n' + lp + '    return (+ 7 (* 0 stale))\n}\n'
+                'shadow f {\n    assert (!= (f 0) 99)\n}\nfn main() -> int { return 0 }\n')
+    return prelude + helper + 'fn main() -> int {\n' + build + '    (println "B")\n' + lp + '    (println "A")\n    return 0\n}\n'
+
+
+def stale_cases(thorough):
+    full = [(l, k, w, a) for l in STALE_LOOPS for k in STALE_KINDS for w in STALE_WAYS for a in STALE_ACCESSES]
+    # `set xs [P { .. }]` (array literal of structs assigned to a variable) is emitted as invalid C by the native transpiler: not a bounds question, left out
+    full = [c for c in full if not (c[1] == 'struct' and c[2] == 'literal')]
+    if thorough:
+        return full
+    return [c for c in full if (c[3] == 'at' and (c[1] in ('int', 'float') or c[0] == 'for_len')) or (c[3] != 'at' and c[0] != 'nested' and c[1] == 'int')]
+
+
+def stale_verdict(rc, so):
+    """-> (class, records): class = 'ok' (every access behaved as its record demands) | 'stale-continued' | 'spurious-trap' | 'other'"""
+    lines = so.split('\n')
+    recs = []; k = 0
+    if 'B' not in lines:
+        return 'other', recs
+    k = lines.index('B') + 1
+    while k + 2 < len(lines) + 1 and k < len(lines) and lines[k] == 'L':
+        try:
+            ln, i = int(lines[k + 1]), int(lines[k + 2])
+        except Exception:
+            return 'other', recs
+        ok = k + 3 < len(lines) and lines[k + 3] == 'ok'
+        recs.append((ln, i, ok)); k += 4 if ok else 3
+    after = 'A' in lines
+    for j, (ln, i, ok) in enumerate(recs):
+        if i >= ln or i < 0:
+            return ('ok' if (not ok and j == len(recs) - 1 and rc != 0 and not after) else 'stale-continued'), recs
+        if not ok:
+            return 'spurious-trap', recs
+    return ('ok' if rc == 0 and after else 'other'), recs
+
+
+def run_stale_and_kinds(ck, b, ba, ref, cfgbits, scratch):
+    engines = ('vm', 'vmfile', 'native', 'interp')
+    # ---- sources
+    progs = {}
+    for c in stale_cases(ck.thorough):
+        # interpreter: array_set works on static arrays only, array_get is not implemented at all -> `at` only
+        progs[('stale',) + c] = (stale_program(*c), stale_program(*c, interp=True) if c[3] == 'at' else None)
+    for ek in ELEM_KINDS:
+        for op in ('get', 'set', 'remove', 'pop2'):
+            ip = None if ek == 'nested' else kind_program(ek, op, interp=True)      # interpreter: "Unsupported array element type" for pushed arrays
+            if ip is not None and op == 'set':
+                ty, prelude, vals, show = ELEM_KINDS[ek]
+                ip = ip.replace('    let mut a: array<%s> = []\n    set a (array_push a %s)\n    set a (array_push a %s)\n' % (ty, vals[0], vals[1]),
+                                '    let mut a: array<%s> = [%s, %s]\n' % (ty, vals[0], vals[1]))
+            progs[('kind', ek, op)] = (kind_program(ek, op), ip)
+    files = {}
+    for key, (rp, ip) in progs.items():
+        base = os.path.join(scratch, 'y_' + hashlib.sha1(repr(key).encode()).hexdigest()[:12])
+        open(base + '.nano', 'w').write(rp)
+        if ip is not None: open(base + '_i.nano', 'w').write(ip)
+        files[key] = base
+
+    def prep(key):
+        base = files[key]
+        r1 = vlib.sh([b.bin('nanoc'), base + '.nano', '-o', base + '.bin'], timeout=180, cwd=scratch)
+        r2 = vlib.sh([b.bin('nano_virt'), base + '.nano', '--emit-nvm', '-o', base + '.nvm'], timeout=60, cwd=scratch)
+        return key, r1[0] == 0 and os.path.exists(base + '.bin'), r2[0] == 0 and os.path.exists(base + '.nvm'), (r1[1] + r1[2] + r2[2])[-300:]
+    with ThreadPoolExecutor(16) as ex:
+        built = {k: (n_, v_, log) for k, n_, v_, log in ex.map(prep, list(files))}
+    for k, (n_, v_, log) in built.items():
+        if not (n_ and v_):
+            ck.fail('c08:gen:compile:' + ':'.join(map(str, k)), 'a generated C08 program no longer compiles (%s): %s' % ('native' if not n_ else 'emit-nvm', log),
+                    dict(program=progs[k][0], correspondence='machinery'), tie=True)
+
+    def run_engine(e, key, idx):
+        base = files[key]; env = dict(ENVB, C08_IDX=str(idx))
+        if e == 'interp':
+            ob = base + '_ib_' + hashlib.sha1(repr((key, idx)).encode()).hexdigest()[:8]
+            rc, so, se = vlib.sh([b.bin('nanoc'), base + '_i.nano', '-o', ob], timeout=180, env=env, cwd=scratch)
+            if os.path.exists(ob): os.unlink(ob)
+            return rc, so + se, ''
+        if e == 'vm':
+            return vlib.sh([ba.bin('nano_virt'), base + '.nano', '--run'], timeout=60, env=env, cwd=scratch)
+        if e == 'vmfile':
+            return vlib.sh([ba.bin('nano_vm'), base + '.nvm'], timeout=60, env=env, cwd=scratch)
+        return vlib.sh([base + '.bin'], timeout=30, env=env, cwd=scratch)
+
+    jobs = []
+    for key in progs:
+        for e in engines:
+            if e == 'interp' and progs[key][1] is None: continue
+            if e in ('native',) and not built[key][0]: continue
+            if e == 'vmfile' and not built[key][1]: continue
+            if key[0] == 'stale':
+                jobs.append((e, key, 0))
+            else:
+                for idx in ((0, 1) if key[2] == 'pop2' else (0, 1, 2, -1, 2**32 + 1)):
+                    jobs.append((e, key, idx))
+    with ThreadPoolExecutor(16) as ex:
+        results = list(ex.map(lambda j: run_engine(*j), jobs))
+    sdist = {}; kdist = {}; exercised = 0
+    mq = []       # model questions for the stale records
+    for (e, key, idx), (rc, so, se) in zip(jobs, results):
+        san = e != 'interp' and ('AddressSanitizer' in se or re.search(r'\.[ch]:\d+:\d+: runtime error:', se) is not None)
+        if key[0] == 'stale':
+            _, loop, ek, way, acc = key
+            name = 'stale:%s:%s:%s:%s:%s' % (e, loop, ek, way, acc)
+            if e == 'interp':
+                cls = 'ok' if ('Runtime Error' in so and rc != 0) or rc == 0 else ('stale-continued' if 'FAILED' in so else 'other')
+                recs = []
+            else:
+                cls, recs = stale_verdict(rc, so)
+                if san: cls = 'sanitizer'
+            stale_hit = any(i >= ln for ln, i, ok in recs) or (e == 'interp' and 'Runtime Error' in so)
+            exercised += 1 if stale_hit else 0
+            ck.count(name, nontrivial=stale_hit)
+            d = sdist.setdefault(e, {}); d[cls] = d.get(cls, 0) + 1
+            for ln, i, ok in recs:
+                mq.append((name, e, acc, ln, i, ok, key))
+            if cls == 'other' and e == 'native' and ek == 'struct' and acc in ('at', 'array_get') and rc == -11:
+                # dyn_array_get_struct answers an out-of-range index with NULL, the emitted code dereferences it: SIGSEGV, stdout lost (one site, one key)
+                ck.fail('c08:native:get_struct:oob-segv', 'native: (at xs i) on array<struct> outside [0,length) returns NULL from dyn_array_get_struct and the program dies of SIGSEGV '
+                        '(uncontrolled: output lost, memory outside the object touched)', dict(engine=e, family='stale', loop=loop, elem=ek, way=way, access=acc, rc=rc, program=progs[key][0]))
+            elif cls != 'ok':
+                prog = progs[key][1 if e == 'interp' else 0]
+                ck.fail('c08:stale:%s:%s:%s:%s:%s' % (e, loop, ek, way, acc),
+                        '%s: loop "%s" over array<%s>, body shrinks it by "%s": %s %s (records (current length, index, continued): %s)'
+                        % (e, loop, ek, way, acc, {'stale-continued': 'at an index >= the CURRENT length does not stop the program', 'spurious-trap': 'inside the current length stopped the program',
+                                                   'sanitizer': 'raised a sanitizer report: ' + se[:160]}.get(cls, 'ended in an unexpected way rc=%s' % rc), recs[-4:]),
+                        dict(engine=e, family='stale', loop=loop, elem=ek, way=way, access=acc, observed_records=recs, rc=rc, program=prog,
+                             expected='the access at index >= current length is the last thing the program does; exit != 0'))
+        else:
+            _, ek, op = key
+            name = 'kind:%s:%s:%s:idx=%d' % (e, ek, op, idx)
+            n = 1 if op == 'pop2' else 2
+            legit = (idx == 0) if op == 'pop2' else (0 <= idx < n)
+            ck.count(name, nontrivial=not legit)
+            if e == 'interp':
+                ob = 'trap' if ('Runtime Error' in so and rc != 0) else ('continue' if 'FAILED' in so else 'other rc=%s %s' % (rc, so[-80:]))
+            else:
+                lines = so.split('\n')
+                ob = 'sanitizer' if san else ('trap' if (rc != 0 and 'B' in lines and 'A' not in lines) else ('continue' if rc == 0 and 'A' in lines else 'other rc=%s' % rc))
+            d = kdist.setdefault(e, {}); lab = ('legit-' if legit else 'oob-') + ob.split()[0]; d[lab] = d.get(lab, 0) + 1
+            want = 'continue' if legit else 'trap'
+            if ob != want:
+                site = 'c08:%s:%s_%s:%s' % (e, {'get': 'get', 'set': 'set', 'remove': 'remove', 'pop2': 'pop'}[op], ek,
+                                            'oob-continues' if (not legit and ob == 'continue') else ('oob-segv' if (not legit and ob == 'other rc=-11') else 'unexpected'))
+                ck.fail(site, '%s: %s on array<%s> (length %d) at index %d: observed %s, the property demands %s' % (e, op, ek, n, idx, ob, want),
+                        dict(engine=e, family='kind', elem=ek, access=op, length=n, index=idx, observed_impl=ob, stderr=se[-200:], program=progs[key][1 if e == 'interp' else 0],
+                             env=dict(C08_IDX=str(idx))))
+    # the model's word on every recorded access of the stale family (current length at the time of the access)
+    if mq:
+        ans = vlib.run_lines(ref, ['acc %s %s %s %x %s' % (cfgbits, 'vm' if e == 'vmfile' else e, {'at': 'get', 'array_get': 'get', 'array_set': 'set'}[acc], ln, zhex(i))
+                                   for (_, e, acc, ln, i, ok, key) in mq])
+        for (name, e, acc, ln, i, ok, key), a_ in zip(mq, ans):
+            macc, legit = parse_model(a_)
+            if (macc[0] == 'trap') == ok:
+                ck.fail('c08:diff:' + name + ':len=%d:idx=%d' % (ln, i), 'engine %s: %s at index %d with current length %d %s, model says %s' % (e, acc, i, ln, 'continued' if ok else 'stopped', macc[0]),
+                        dict(engine=e, family='stale', loop=key[1], elem=key[2], way=key[3], access=acc, program=progs[key][0], correspondence='engine run vs nvref_c08 (stale-bound stream)'))
+    ck.extra['stale_bound_stream'] = dict(programs=sum(1 for k in progs if k[0] == 'stale'), runs=sum(1 for j in jobs if j[1][0] == 'stale'), runs_reaching_a_stale_index=exercised,
+                                          loops=list(STALE_LOOPS), ways=list(STALE_WAYS), accesses=list(STALE_ACCESSES), elem_kinds=list(STALE_KINDS), outcomes=sdist)
+    ck.extra['element_kind_stream'] = dict(kinds=list(ELEM_KINDS), outcomes=kdist,
+                                           excluded=['interp x nested: the interpreter cannot push arrays into an array ("Unsupported array element type")',
+                                                     'interp x array_set on pushed (dynamic) arrays: builtin_array_set accepts static arrays only -> literal arrays used'])
+
+
 # ------------------------------------------------------------------ context axis
 # every trapping operation in every syntactic position: the trap is an effect, so it must survive "the value is not used"
 INT_CTX = {
@@ -369,6 +602,7 @@ def run(ck):
         for i in (0, len(cases) // 2, len(cases) - 1):
             ck.sample(dict(case='%s %s len=%d idx=%d' % cases[i], model=list(model[i][0]), observed=list(obs[i])))
         run_ctx(ck, b, ba, ref, cfgbits, scratch)
+        run_stale_and_kinds(ck, b, ba, ref, cfgbits, scratch)
         # ---- field / tuple / union index and the repaired-VM witnesses at bytecode level (vm_probe vs the VM model of C13)
         asm = L.Asm(L.load_table()); a = asm
         bc = []
